@@ -261,6 +261,61 @@ theorem range_single_complete (A : HashAlg H) (rc : RCfg) (t : Tree H) (n : Nat)
     ∃ more, verifySingle A rc (t.hash A) k (t.get A k) P = RRes.ok more :=
   single_complete rc t n hwf hn h256 k hk hhas hv legacy cached P hlook
 
+/-- RANGE SOUNDNESS, general case (two or more keys, or one key with `first` < key), for every
+variant in which `unset` clears the boundary leaf under a binary node (`unsetLeaf`, the repaired code),
+against ANY node set: if `VerifyRangeProof(root, first, keys, values, P)` succeeds then, in every trie `t`
+with that root, every key `k` of the interval `first ≤ k ≤ last` holds exactly what the claimed list
+gives it (`lastVal kvs k`, zero = not listed): nothing in the interval is left out, nothing listed there
+is wrong or invented. (Entries listed LEFT of `first` are not covered by this statement: the code accepts
+them when they are genuine entries on the resolved path; see notes.) -/
+theorem range_sound (A : HashAlg H) (hI : Ideal A) (rc : RCfg) (hul : rc.unsetLeaf = true)
+    (t : Tree H) (n : Nat) (hwf : WF t n) (first : Path) (hfl : first.length = n)
+    (kvs : List (Path × H)) (hkl : ∀ kv ∈ kvs, kv.1.length = n) (P : PSet H) (more : Bool)
+    (h : verifyMulti A rc (t.hash A) first kvs P = RRes.ok more) :
+    ∃ lastKV, kvs.getLast? = some lastKV ∧ pathLt first lastKV.1 = true ∧
+      ∀ k, k.length = n → (first = k ∨ pathLt first k = true) →
+        (k = lastKV.1 ∨ pathLt k lastKV.1 = true) →
+        t.get A k = (lastVal kvs k).getD A.zero :=
+  multi_sound hI rc hul t n hwf first hfl kvs hkl P more h
+
+/-- …and the returned `more` flag is exact (repaired variant): `VerifyRangeProof` returns `true` iff the
+trie has a key greater than the last key of the list. Together with `range_single_more` and
+`range_empty_sound` (flag always `false`, and then indeed nothing is at or right of `first`) this is
+the complete statement of what `hasMore` guarantees: whenever verification succeeds,
+`hasMore = (some key of the trie is greater than the last listed key)`. -/
+theorem range_more (A : HashAlg H) (hI : Ideal A) (rc : RCfg) (hch : rc.checkHash = true)
+    (hev : rc.earlyValue = false) (hlh : rc.leafHash = true) (t : Tree H) (n : Nat) (hwf : WF t n)
+    (hnz : t.NZ A) (first : Path) (hfl : first.length = n) (kvs : List (Path × H))
+    (hkl : ∀ kv ∈ kvs, kv.1.length = n) (P : PSet H) (more : Bool)
+    (h : verifyMulti A rc (t.hash A) first kvs P = RRes.ok more) :
+    ∃ lastKV, kvs.getLast? = some lastKV ∧ (more = true ↔ GtIn t n lastKV.1) :=
+  multi_more hI rc hch hev hlh t n hwf hnz first hfl kvs hkl P more h
+
+/-- the honest range proof of the sibling keys 110, 111 of the example trie -/
+def gapProof : PSet HTerm :=
+  Trie.prove freeAlg false false (some exTree) [true, true, false] ++
+    Trie.prove freeAlg false false (some exTree) [true, true, true]
+
+/-- DEFECT (known finding `trie2:range:first-element-dropped-leaf-under-binary-node:false-claim-accepted`):
+without `unsetLeaf` (the code as it is; the other repairs do not matter) the range [110, 111] verifies
+with 110 — a key of the trie — left out of the list; the repaired variant rejects it and accepts the
+complete list. So the hypothesis `unsetLeaf` of `range_sound` cannot be dropped. -/
+theorem range_gap_accepted_without_unsetLeaf :
+    verifyMulti freeAlg ⟨true, false, true, true, false⟩ (exTree.hash freeAlg) [true, true, false]
+        [([true, true, true], .felt 9)] gapProof = .ok false ∧
+    exTree.get freeAlg [true, true, false] = .felt 8 ∧
+    verifyMulti freeAlg RCfg.strict (exTree.hash freeAlg) [true, true, false]
+        [([true, true, true], .felt 9)] gapProof = .err ∧
+    verifyMulti freeAlg RCfg.strict (exTree.hash freeAlg) [true, true, false]
+        [([true, true, false], .felt 8), ([true, true, true], .felt 9)] gapProof = .ok false := by
+  decide
+
+-- a multi-element range with an absent first key and more entries to the right: accepted, more = true
+example : verifyMulti freeAlg RCfg.strict (exTree.hash freeAlg) [true, false, false]
+    [([true, false, true], .felt 5), ([true, true, false], .felt 8)]
+    (Trie.prove freeAlg false false (some exTree) [true, false, false] ++
+      Trie.prove freeAlg false false (some exTree) [true, true, false]) = .ok true := by decide
+
 /-- DEFECT (known finding `trie2:range:single-element-forged-node-under-root-hash`): with the code as
 it is, for EVERY root, key and non-zero value the one-node set `{root ↦ Edge(key, Value v)}` makes the
 single-element range proof verify — the root plays no part. -/
